@@ -90,7 +90,7 @@ def levenshtein(a: str, b: str) -> int:
 
 
 SUPPORTED = {"survey", "choices", "settings", "external_choices", "osm", "entities"}
-SURVEY_TRANSLATABLE = ("label", "hint", "guidance_hint", "image", "big-image", "audio", "video", "constraint_message", "required_message")
+SURVEY_TRANSLATABLE = ("label", "hint", "guidance_hint", "image", "big-image", "audio", "video", "constraint_message", "required_message", "noAppErrorString")
 CHOICES_TRANSLATABLE = ("label", "image", "big-image", "audio", "video")
 # a fixed list of well-known registered subtags (independent of the registry files shipped with pyxform)
 # (the IANA registry holds the shortest ISO 639 code only: 'en' is a subtag, 'eng' is not)
@@ -99,7 +99,9 @@ NOT_CODES = {"xx", "zz", "english", "e n", "e", "123", "en-", "EN ", "eng", "fra
 
 
 def similar_sheets(key, sheet_names):
-    return tuple(sorted(k for k in sheet_names if levenshtein(k.lower(), key) <= 2 and k not in SUPPORTED and not k.startswith("_")))
+    if any(k.lower() == key for k in sheet_names):
+        return ()       # sheet names are case-insensitive: the sheet is there (perhaps without rows), nothing is missing
+    return tuple(sorted(k for k in sheet_names if levenshtein(k.lower(), key) <= 2 and k.lower() not in SUPPORTED and not k.startswith("_")))
 
 
 def missing_translations(headers, translatable, sheet):
@@ -122,11 +124,9 @@ def missing_translations(headers, translatable, sheet):
 
 
 def lang_is_bad(lang: str):
-    """True: must be flagged; False: must not; None: not prescribed (short names, odd cases)"""
+    """True: must be flagged; False: must not; None: not prescribed (odd cases)"""
     if lang == "default":
         return False
-    if len(lang) < 3:
-        return None
     m = re.search(r"\(([^()]*)\)$", lang)
     if not m:
         return True if "(" not in lang and ")" not in lang else (True if not lang.endswith(")") else None)
